@@ -216,7 +216,8 @@ def main(argv):
 
     # ---- evidence ---------------------------------------------------------------------
     proved = [o for o in obligations if o.get("complete") and o["status"] in ("discharged",)]
-    proved_obl = [o for o in obligations if o.get("complete") and o["status"] in ("discharged", "failed", "known-finding")]
+    # known findings are reported separately (known_findings_hit) and are neither counted as obligations nor as discharged
+    proved_obl = [o for o in obligations if o.get("complete") and o["status"] in ("discharged", "failed")]
     bounded = [o for o in obligations if not o.get("complete") and o["status"] != "canary-ok"]
     by_engine = {}
     for o in proved:
